@@ -325,6 +325,57 @@ func main() {
 			}
 		}
 	}
+	// every statement-position shortcut opcode (Assign*, AugAssign*, Incr* x Global/Local/Special/Field/ArrayGlobal/ArrayLocal)
+	// against the generic expression-position path and against the spelled-out assignment, with operands (7, 3) that
+	// make a swapped or misdirected operand visible for the non-commutative operators
+	{
+		targets := []struct{ name, lv string }{
+			{"global", "g"}, {"local", "loc"}, {"special", "NR"}, {"field", "$2"}, {"field-expr", "$(one + 1)"},
+			{"array-global", `G["k"]`}, {"array-local", `R["k"]`}, {"array-local-num", `R[5]`}, {"array-global-multi", `G[1, 2]`},
+		}
+		prog := func(stmt string) string {
+			return fmt.Sprintf(`function f(R, loc,   one) { one = 1; loc = 7; R["k"] = 7; R[5] = 7; %s; return loc ":" R["k"] ":" R[5] ":" v }
+BEGIN { one = 1; g = 7; G["k"] = 7; G[1, 2] = 7; NR = 7; $0 = "7 7 7"; r = f(H, 0); %s; print r, g, G["k"], G[1, 2], NR, $0, NF, v, H["k"], H[5] }`,
+				stmt, stmt)
+		}
+		for _, t := range targets {
+			for _, op := range []string{"+", "-", "*", "/", "%", "^"} {
+				base := prog(fmt.Sprintf("%s %s= 3", t.lv, op))
+				check("lvalue-shortcut:aug:"+t.name, base, map[string]string{
+					"paren":    prog(fmt.Sprintf("(%s %s= 3)", t.lv, op)),
+					"expanded": prog(fmt.Sprintf("%s = %s %s 3", t.lv, t.lv, op)),
+					"via-temp": prog(fmt.Sprintf("tmp = 3; %s = %s %s tmp", t.lv, t.lv, op)),
+				})
+				// the value of the expression form is the assigned value
+				check("lvalue-shortcut:aug-value:"+t.name, prog(fmt.Sprintf("v = (%s %s= 3)", t.lv, op)), map[string]string{
+					"expanded": prog(fmt.Sprintf("%s = %s %s 3; v = %s", t.lv, t.lv, op, t.lv)),
+				})
+			}
+			for _, inc := range []struct{ stmt, expanded, val string }{
+				{"%s++", "%s = %s + 1", "v = %s++"}, {"%s--", "%s = %s - 1", "v = %s--"},
+				{"++%s", "%s = %s + 1", "v = ++%s"}, {"--%s", "%s = %s - 1", "v = --%s"},
+			} {
+				lv := t.lv
+				base := prog(fmt.Sprintf(inc.stmt, lv))
+				check("lvalue-shortcut:incr:"+t.name, base, map[string]string{
+					"paren":    prog("(" + fmt.Sprintf(inc.stmt, lv) + ")"),
+					"expanded": prog(fmt.Sprintf(inc.expanded, lv, lv)),
+				})
+				post := strings.HasPrefix(inc.stmt, "%s")
+				exp := fmt.Sprintf(inc.expanded, lv, lv) + "; v = " + lv
+				if post {
+					exp = "v = " + lv + " + 0; " + fmt.Sprintf(inc.expanded, lv, lv)
+				}
+				check("lvalue-shortcut:incr-value:"+t.name, prog(fmt.Sprintf(inc.val, lv)), map[string]string{"expanded": prog(exp)})
+			}
+			check("lvalue-shortcut:assign:"+t.name, prog(fmt.Sprintf("%s = 3 - one", t.lv)), map[string]string{
+				"paren": prog(fmt.Sprintf("(%s = 3 - one)", t.lv)),
+			})
+			check("lvalue-shortcut:assign-value:"+t.name, prog(fmt.Sprintf("v = (%s = 3 - one)", t.lv)), map[string]string{
+				"expanded": prog(fmt.Sprintf("%s = 3 - one; v = %s", t.lv, t.lv)),
+			})
+		}
+	}
 	// the one known divergence between a chain and its regrouping (conversion happens after ALL operands are evaluated)
 	check("concat-chain-convfmt-side-effect",
 		`function f() { CONVFMT = "%.2g"; return "" } BEGIN { a = 0.123456789; s = a "x" f(); print s }`,
